@@ -983,8 +983,46 @@ type runResult struct {
 	facts   string
 }
 
-func (p *prog) run(wrapped bool, viaCopy bool) runResult {
+// runs the program's files on vm; catchText is what the try/catch put around the last top-level
+// statement does with the exception ("" = no try/catch: the error comes back from Run)
+func (p *prog) exec(vm *otto.Otto, catchText string) (otto.Value, error) {
+	exec := func(f *fileBuf, src string) (otto.Value, error) {
+		if f.name == "" {
+			return vm.Run(src)
+		}
+		sc, err := vm.Compile(f.name, src)
+		if err != nil {
+			return otto.Value{}, err
+		}
+		return vm.Run(sc)
+	}
+	if p.lib != nil {
+		if _, err := exec(p.lib, string(p.lib.b)); err != nil {
+			return otto.Value{}, fmt.Errorf("lib: %w", err)
+		}
+	}
+	src := string(p.main.b)
+	if catchText != "" {
+		src = src[:p.wrapStart] + "try  { " + src[p.wrapStart+7:p.wrapEnd] + " } catch (e) { " + catchText + " }" + src[p.wrapEnd:]
+	}
+	return exec(p.main, src)
+}
+
+func resultOf(o Outcome) runResult {
 	var res runResult
+	res.panicked = o.Panic
+	if o.Err != nil {
+		res.errText = o.Err.Error()
+		if oe, ok := o.Err.(*otto.Error); ok {
+			res.isOtto = true
+			res.str = oe.String()
+		}
+	}
+	return res
+}
+
+func (p *prog) run(wrapped bool, viaCopy bool) runResult {
+	facts := ""
 	o := Guard(func() (otto.Value, error) {
 		vm := otto.New()
 		if p.history > 0 {
@@ -1004,41 +1042,20 @@ func (p *prog) run(wrapped bool, viaCopy bool) runResult {
 		if viaCopy {
 			vm = vm.Copy()
 		}
-		exec := func(f *fileBuf, src string) (otto.Value, error) {
-			if f.name == "" {
-				return vm.Run(src)
-			}
-			sc, err := vm.Compile(f.name, src)
-			if err != nil {
-				return otto.Value{}, err
-			}
-			return vm.Run(sc)
-		}
-		if p.lib != nil {
-			if _, err := exec(p.lib, string(p.lib.b)); err != nil {
-				return otto.Value{}, fmt.Errorf("lib: %w", err)
-			}
-		}
-		src := string(p.main.b)
+		catchText := ""
 		if wrapped {
-			src = src[:p.wrapStart] + "try  { " + src[p.wrapStart+7:p.wrapEnd] + " } catch (e) { __r = __facts(e) }" + src[p.wrapEnd:]
+			catchText = "__r = __facts(e)"
 		}
-		v, err := exec(p.main, src)
+		v, err := p.exec(vm, catchText)
 		if wrapped {
 			if fv, e2 := vm.Get("__r"); e2 == nil && fv.IsString() {
-				res.facts = fv.String()
+				facts = fv.String()
 			}
 		}
 		return v, err
 	})
-	res.panicked = o.Panic
-	if o.Err != nil {
-		res.errText = o.Err.Error()
-		if oe, ok := o.Err.(*otto.Error); ok {
-			res.isOtto = true
-			res.str = oe.String()
-		}
-	}
+	res := resultOf(o)
+	res.facts = facts
 	return res
 }
 
@@ -1197,7 +1214,53 @@ func genProgram(env *Env, pinned int) {
 	}
 	r1 := p.run(false, viaCopy)
 	r2 := p.run(true, viaCopy)
+	p.emit(env, qname, fmt.Sprintf("copy=%v history=%d", viaCopy, p.history), r1, r2)
+}
 
+// a history on one runtime: 2-4 programs, each ending in an error that is retained (the *otto.Error
+// returned by Run on one runtime; the caught JS error object on a second one); ALL retained errors are
+// inspected only after the last one was raised, and each is judged as if it were alone
+func genSession(env *Env) {
+	r := env.Rng
+	n := 2 + r.Intn(3)
+	progs := make([]*prog, n)
+	for i := range progs {
+		progs[i], _ = randomProgram(r)
+		if r.Intn(2) == 0 { // a later, shallower error is what overwrites shared state
+			for len(progs[i].levels) > 3 {
+				progs[i], _ = randomProgram(r)
+			}
+		}
+	}
+	kept := make([]error, n)
+	panics := make([]interface{}, n)
+	vm1 := otto.New()
+	_ = RunJS(vm1, prelude)
+	for i, p := range progs {
+		p := p
+		vm1.SetStackTraceLimit(p.limit)
+		o := Guard(func() (otto.Value, error) { return p.exec(vm1, "") })
+		kept[i], panics[i] = o.Err, o.Panic
+	}
+	vm2 := otto.New()
+	_ = RunJS(vm2, prelude+"\nvar __keep = [];")
+	for i, p := range progs {
+		p := p
+		vm2.SetStackTraceLimit(p.limit)
+		_ = Guard(func() (otto.Value, error) { return p.exec(vm2, fmt.Sprintf("__keep[%d] = e", i)) })
+	}
+	// only now look at them
+	for i, p := range progs {
+		r1 := resultOf(Outcome{Err: kept[i], Panic: panics[i]})
+		var r2 runResult
+		if o := RunJS(vm2, fmt.Sprintf("__facts(__keep[%d])", i)); o.Err == nil && o.Panic == nil && o.Val.IsString() {
+			r2.facts = o.Val.String()
+		}
+		p.emit(env, "session", fmt.Sprintf("session step %d of %d (inspected after the last)", i+1, n), r1, r2)
+	}
+}
+
+func (p *prog) emit(env *Env, qname, how string, r1, r2 runResult) {
 	// ---- trace case ----
 	files := make([]string, len(p.files))
 	for i, f := range p.files {
@@ -1213,7 +1276,7 @@ func genProgram(env *Env, pinned int) {
 	for _, f := range p.files {
 		srcs = append(srcs, fmt.Sprintf("file %d %q: %q", f.table, f.name, string(f.b)))
 	}
-	txt := fmt.Sprintf("trace limit=%d copy=%v history=%d kind=%d %s -> Error()=%q String()=%q panic=%v", p.limit, viaCopy, p.history, p.kind,
+	txt := fmt.Sprintf("trace limit=%d %s kind=%d %s -> Error()=%q String()=%q panic=%v", p.limit, how, p.kind,
 		strings.Join(srcs, " ; "), r1.errText, r1.str, r1.panicked)
 	env.Add(fmt.Sprintf("CTrace %d %s %s %s (%s) %s %s", landed, Clist(files), Cz(int64(p.limit)), Clist(levels), p.raise, Cbool(hdrOK), Clist(frames)),
 		txt, "trace/"+qname, len(p.levels) >= 2)
@@ -1241,7 +1304,7 @@ func genProgram(env *Env, pinned int) {
 		}
 	}
 	env.Add(fmt.Sprintf("CFacts %d %d %s", landed, p.kind, Czlist(obs)),
-		fmt.Sprintf("facts kind=%d main=%q -> Error()=%q in-script=%q", p.kind, string(p.main.b), r1.errText, r2.facts), "facts", true)
+		fmt.Sprintf("facts %s kind=%d main=%q -> Error()=%q in-script=%q", how, p.kind, string(p.main.b), r1.errText, r2.facts), "facts", true)
 }
 
 func errOf(r runResult) error {
@@ -1482,6 +1545,93 @@ func (p *prog) badArg(fid int) string {
 			return argText(p.r, v, fid == 5, true)
 		}
 	}
+}
+
+
+// ---------------------------------------------------------------------------
+// in / instanceof with operands whose conversion methods log and throw
+
+func genOrder(env *Env, pinned int) {
+	r := env.Rng
+	op := r.Intn(2)
+	l := r.Intn(5)
+	rk := r.Intn(4)
+	if pinned == 1 {
+		op, l, rk = 0, 2, 0
+	}
+	setup := `var log = []; function mk() { var e = new RangeError("user"); e.user = true; return e }
+function F() {} F.toString = function () { log.push(3); throw mk() }; F.valueOf = function () { log.push(4); throw mk() };
+function G() {} G.toString = F.toString; G.valueOf = F.valueOf; G.prototype = ` + Pick(r, []string{"5", "null", "undefined", "\"s\"", "true"}) + `;
+var RO = {k: 1, "1": 1, "true": 1, "null": 1, "undefined": 1, "1.5": 1, toString: F.toString, valueOf: F.valueOf};
+var L = Object.create(F.prototype);
+`
+	lnames := []string{"LPrim", "LStr", "LThrow", "LVal", "LValThrow"}
+	left := "L"
+	switch l {
+	case 0:
+		left = Pick(r, []string{"\"k\"", "1", "true", "null", "undefined", "1.5"})
+	case 1:
+		setup += `L.toString = function () { log.push(1); return "k" }; L.valueOf = function () { log.push(2); throw mk() };`
+	case 2:
+		setup += `L.toString = function () { log.push(1); throw mk() }; L.valueOf = function () { log.push(2); return "k" };`
+	case 3:
+		setup += `L.toString = function () { log.push(1); return {} }; L.valueOf = function () { log.push(2); return "k" };`
+	default:
+		setup += `L.toString = function () { log.push(1); return [] }; L.valueOf = function () { log.push(2); throw mk() };`
+	}
+	rnames := []string{"RPrim", "RObj", "RFun", "RFunBadProto"}
+	right := []string{Pick(r, []string{"1", "\"str\"", "null", "undefined", "true", "0", "NaN", "\"\""}), "RO", "F", "G"}[rk]
+	if pinned == 1 {
+		right = "1"
+	}
+	expr := left + []string{" in ", " instanceof "}[op] + right
+	if r.Intn(3) == 0 {
+		expr = "(function () { return " + expr + " })()"
+	}
+	vm := otto.New()
+	_ = RunJS(vm, prelude)
+	o1 := RunJS(vm, setup+"\nvar out; try { out = ("+expr+") ? 1 : 0 } catch (e) { out = (e && e.user) ? 90 : (__facts(e).split(\"\\u0001\")[0] === \"6,1,1,1,1,1\" ? 6 : 8) } [out, log.join(\"\")].join(\"|\")")
+	vm2 := otto.New()
+	_ = RunJS(vm2, prelude)
+	o2 := RunJS(vm2, setup+"\n"+expr)
+	out, logs := int64(8), "?"
+	if o1.Err == nil && o1.Panic == nil && o1.Val.IsString() {
+		parts := strings.SplitN(o1.Val.String(), "|", 2)
+		if v, err := strconv.Atoi(parts[0]); err == nil && len(parts) == 2 {
+			out, logs = int64(v), parts[1]
+		}
+	}
+	// the uncaught run must tell the same story
+	switch {
+	case o2.Panic != nil:
+		out = 9
+	case out == 0 || out == 1:
+		if o2.Err != nil {
+			out = 8
+		}
+	case out == 6:
+		if _, ok := o2.Err.(*otto.Error); !ok || !strings.HasPrefix(o2.Err.Error(), "TypeError: ") {
+			out = 8
+		}
+	case out == 90:
+		if o2.Err == nil || o2.Err.Error() != "RangeError: user" {
+			out = 8
+		}
+	}
+	var lg []int64
+	for _, c := range logs {
+		if c < '0' || c > '9' {
+			lg = append(lg, -1)
+		} else {
+			lg = append(lg, int64(c-'0'))
+		}
+	}
+	errText := ""
+	if o2.Err != nil {
+		errText = o2.Err.Error()
+	}
+	env.Add(fmt.Sprintf("COrder %d %s %s (%d, %s)", op, lnames[l], rnames[rk], out, Czlist(lg)),
+		fmt.Sprintf("order %s   [%s] -> outcome %d conversions %q uncaught=%q", expr, strings.ReplaceAll(setup, "\n", " "), out, logs, errText), "order", true)
 }
 
 // ---------------------------------------------------------------------------
@@ -1821,22 +1971,26 @@ func runC19(env *Env) {
 	landed = detectLanded()
 	env.Extra["repairs_already_in_tree"] = landed
 	env.Import = "Otto.C19.Corr"
-	env.Rule = "programs: an error-raising construct of one of 51 kinds placed by a position-tracking generator inside 0-14 nested frames (declared/anonymous/named function expressions, methods, constructors, call/apply/bind, callbacks of 11 built-ins, IIFEs, direct and indirect eval, Function()), 0-3 earlier statements per frame (calls of every callee form, completed evals, caught errors), up to two named files plus eval texts, trace limits -3..15 correlated with the depth, optionally through Otto.Copy; plus the argument-dependent raises (toString radix, toFixed/toExponential/toPrecision digits, new Array(len), length = len) over boundary arguments (range ends, fractions, residues of the legal range modulo 2^31/2^32/2^53/2^63/2^64, negatives, NaN, infinities, numeric strings, objects with valueOf/toString) in both directions; file.Position on random texts/offsets, parser positions of an offending token, uncaught text after name/message mutations, FileSet.Position; non-trivial = distinct case with at least one call frame (traces) or a line break (positions); all text/fileset/facts cases"
+	env.Rule = "programs: an error-raising construct of one of 51 kinds placed by a position-tracking generator inside 0-14 nested frames (declared/anonymous/named function expressions, methods, constructors, call/apply/bind, callbacks of 11 built-ins, IIFEs, direct and indirect eval, Function()), 0-3 earlier statements per frame (calls of every callee form, completed evals, caught errors), up to two named files plus eval texts, trace limits -3..15 correlated with the depth, optionally through Otto.Copy; plus the argument-dependent raises (toString radix, toFixed/toExponential/toPrecision digits, new Array(len), length = len) over boundary arguments (range ends, fractions, residues of the legal range modulo 2^31/2^32/2^53/2^63/2^64, negatives, NaN, infinities, numeric strings, objects with valueOf/toString) in both directions; `in`/`instanceof` with operands whose conversion methods log and throw (5 left x 4 right operand kinds, both operators: outcome, class facts and the conversion log); sessions of 2-4 programs on one runtime whose retained errors (Go *otto.Error and caught JS error objects) are all inspected only after the last one was raised; file.Position on random texts/offsets, parser positions of an offending token, uncaught text after name/message mutations, FileSet.Position; non-trivial = distinct case with at least one call frame (traces) or a line break (positions); all text/fileset/facts cases"
 	pins := []func(){}
 	for k := 1; k <= 9; k++ {
 		k := k
 		pins = append(pins, func() { genProgram(env, k) })
 	}
-	pins = append(pins, func() { genArg(env, 1) }, func() { genPos(env, 1) }, func() { genPos(env, 2) }, func() { genSyntax(env, 1) },
+	pins = append(pins, func() { genOrder(env, 1) }, func() { genArg(env, 1) }, func() { genPos(env, 1) }, func() { genPos(env, 2) }, func() { genSyntax(env, 1) },
 		func() { genText(env, 1) }, func() { genFileSet(env, 1) })
 	for _, f := range pins {
 		f()
 	}
 	r := env.Rng
 	for env.Count() < env.N {
-		switch k := r.Intn(24); {
-		case k < 11:
+		switch k := r.Intn(28); {
+		case k < 9:
 			genProgram(env, 0)
+		case k >= 26:
+			genOrder(env, 0)
+		case k >= 24:
+			genSession(env)
 		case k < 14:
 			genPos(env, 0)
 		case k < 17:
